@@ -537,3 +537,59 @@ def num1(units, R):
                 raise AnalysisBroken('NUM1: whether %s is printed as null depends on a condition the class domain cannot decide' % name)
             R.ob('NUM1', fn, None, '%s is not printed as null' % name, not reached_null,
                  'the null literal is unreachable for this value' if not reached_null else 'a finite number is replaced by null', key='finite-null:' + c)
+
+
+# ---- NUM4: the tolerance comparison over the classes of doubles ---------------------------------------------------------------------
+
+def num4(units, R, unit_names=('cJSON.c', 'cJSON_Utils.c'), fn_name='compare_double'):
+    """compare_double(a, b) evaluated in the class domain for every pair of classes of its two operands: a NaN equals nothing, an
+    infinite number does not equal a finite one nor the other infinity (a relative tolerance computed from an infinite operand is
+    itself infinite and would accept everything), and zero equals zero.  What two finite numbers of the same sign compare to is
+    a matter of their values and is not judged."""
+    n = 0
+    for un in unit_names:
+        u = units.get(un)
+        if u is None:
+            continue
+        fn = u.functions.get(fn_name)
+        if fn is None or fn.body is None or len(fn.params) != 2:
+            raise AnalysisBroken('NUM4: %s(a, b) not found in %s' % (fn_name, un))
+        ev = Eval(u, None)
+        name = {'nan': 'NaN', 'pinf': '+inf', 'ninf': '-inf', 'pos': 'a positive finite number', 'neg': 'a negative finite number', 'zero': 'zero'}
+        bad = []
+        undecided = []
+        for a in CLASSES:
+            for b in CLASSES:
+                must = None
+                if a == 'nan' or b == 'nan':
+                    must = False
+                elif (a in ('pinf', 'ninf')) != (b in ('pinf', 'ninf')):
+                    must = False
+                elif {a, b} == {'pinf', 'ninf'}:
+                    must = False
+                elif a == b == 'zero':
+                    must = True
+                elif {a, b} == {'pos', 'neg'} or (a == 'zero') != (b == 'zero'):
+                    must = False if False else None      # opposite signs / zero against non-zero: unequal, but the class domain has no room to show it
+                if must is None:
+                    continue
+                n += 1
+                rets = ev.run(fn, [AV([a]), AV([b])])
+                vals = set()
+                for r in rets:
+                    if r is UNKNOWN or r is None or isinstance(r, AV):
+                        vals = None
+                        break
+                    vals |= set(r)
+                if vals is None:
+                    undecided.append((a, b))
+                elif vals != {must}:
+                    bad.append((a, b, must, vals))
+        if undecided and not bad:
+            raise AnalysisBroken('NUM4: what %s returns for %s against %s cannot be decided in the class domain' % (
+                fn_name, name[undecided[0][0]], name[undecided[0][1]]))
+        R.ob('NUM4', fn, None, 'the tolerance comparison treats the non-finite numbers as RFC-less values that equal nothing else', not bad,
+             '25 pairs of operand classes' if not bad else '%s compared with %s can come out %s (%d of the judged pairs wrong): the tolerance '
+             'is the larger magnitude times DBL_EPSILON, which is infinite for an infinite operand' % (
+                 name[bad[0][0]], name[bad[0][1]], 'equal' if bad[0][3] != {False} else 'unequal', len(bad)), key='classes:' + un)
+    R.floor('NUM4', 'pairs of operand classes judged', n, 20)
